@@ -30,7 +30,7 @@ theorem trimmed_mlen_le (l : Lex) (hwf : l.WF) :
 
 theorem number_round_lex (l : Lex) (hwf : l.WF) (p : Int) (hp : 0 < p) :
     ∃ w, numVal (number l.str p) = some w ∧ WithinHalfUnit l.str p l.val w := by
-  rcases number_lex l hwf p (fun m0 h => rnd_wf h p) with h | ⟨l', h1, h2, _, _, h5⟩
+  rcases number_lex l hwf p (fun m0 h => rnd_wf h p) with h | ⟨l', h1, h2, _, _, h5, _⟩
   · rw [h]; exact ⟨l.val, numVal_str l hwf, within_refl _ _ _⟩
   · refine ⟨l'.val, by rw [← h2]; exact numVal_str l' h1, ?_⟩
     rcases h5 with ⟨z1, z2⟩ | ⟨hm, hgd, hv⟩
